@@ -254,6 +254,7 @@ class Server(object):
         self.t = 1600000000
         self.faults = {}            # message id -> {"dup": bool, "corrupt": bool}
         self.done_faults = set()
+        self.tx_count = {}
         self.msg_routes = []        # log: (msgid, sender, recipient, kind)
         self.acked_by_client = []
         self.sid = 0
@@ -422,13 +423,33 @@ class Server(object):
         key = (mid, phone)
         f = self.faults.get(mid, {})
         self.msg_routes.append((mid, sender.phone, phone, kind))
-        if f.get("corrupt") and ("corrupt", key) not in self.done_faults and children(stanza, "enc"):
+        if f.get("corrupt_all"):
+            # the library retries without bound; the server stops relaying a message after three damaged transmissions
+            n_tx = self.tx_count[key] = self.tx_count.get(key, 0) + 1
+            if n_tx > 3:
+                self.world.count("undecryptable_message_dropped_by_server")
+                return
+        if (f.get("corrupt_all") or (f.get("corrupt") and ("corrupt", key) not in self.done_faults)) and children(stanza, "enc"):
             self.done_faults.add(("corrupt", key))
             kids = list(stanza[2])
             for i, c in enumerate(kids):
                 if c[0] == "enc" and c[3]:
                     d = bytearray(c[3])
-                    d[len(d) // 2] ^= 0x21
+                    if f.get("corrupt_all"):
+                        # every (re)transmission is damaged, in the authentication tag of the (inner) message, so that the
+                        # envelope still presents the sender's identity and key ids intact
+                        if c[1].get("type") == "pkmsg":
+                            from axolotl.protocol import whisperprotos_pb2 as wp
+                            m = wp.PreKeyWhisperMessage()
+                            m.ParseFromString(bytes(d[1:]))
+                            inner = bytearray(m.message)
+                            inner[-2] ^= 0x21
+                            m.message = bytes(inner)
+                            d = bytearray(bytes(d[:1]) + m.SerializeToString())
+                        else:
+                            d[-2] ^= 0x21
+                    else:
+                        d[len(d) // 2] ^= 0x21
                     kids[i] = (c[0], c[1], c[2], bytes(d))
                     break
             stanza = (stanza[0], stanza[1], kids, stanza[3])
